@@ -385,10 +385,28 @@ def check(prog, run):
     # R7: a guarded difference is measured against the last *accepted* value: the watermark fields the narrowed differences read are
     # not stored on any path that ends in a rejection (C05.R1 instances restricted to those fields)
     wm = set()
-    for (p, bb, kind, frm, to, node, stmt) in obs:
-        if kind != "cast":
+    narrowed = [(p, sym.expr(u.bodies[p], node)) for (p, bb, kind, frm, to, node, stmt) in obs if kind == "cast"]
+    for p in sorted(reach):
+        if u.bodies[p]["in_test_cfg"]:
             continue
-        for t_ in sym.walk(sym.expr(u.bodies[p], node)):
+        for bb_, tt, name, info in mir.calls(u.bodies[p]):
+            # a checked conversion (`u32::try_from(a - b)`) narrows just like a guarded cast
+            if name and mir.norm(name).split("::")[-1] in ("try_from", "try_into") and tt["args"]:
+                narrowed.append((p, sym.expr(u.bodies[p], tt["args"][0])))
+    for p_, ex_ in list(narrowed):
+        # a difference taken inside a local helper: `helper(now, self.prev)` - the subtrahend is the call sites' argument
+        for t_ in sym.walk(ex_):
+            if isinstance(t_, tuple) and t_ and t_[0] == "bin" and t_[1] in ("Sub", "SubWithOverflow") and isinstance(t_[3], tuple) and t_[3][0] == "arg":
+                k_ = t_[3][1]
+                for q_ in sorted(reach):
+                    if u.bodies[q_]["in_test_cfg"]:
+                        continue
+                    for bb2, t2, n2, i2 in mir.calls(u.bodies[q_]):
+                        if n2 == p_ and len(t2["args"]) >= k_:
+                            sub_ = sym.expr(u.bodies[q_], t2["args"][k_ - 1])
+                            narrowed.append((q_, ("bin", "Sub", ("const", 0, "u64"), sub_)))
+    for p_, ex_ in narrowed:
+        for t_ in sym.walk(ex_):
             if isinstance(t_, tuple) and t_ and t_[0] == "bin" and t_[1] in ("Sub", "SubWithOverflow") and isinstance(t_[3], tuple):
                 # the subtrahend is receiver state (read directly, or taken out through Option::replace / take / mem::replace)
                 for y in sym.walk(t_[3]):
